@@ -48,6 +48,22 @@ def _do(obj, act, arg, dtype, is_op):
         return obj + Z(arg)
     if act == "mul_t":
         return obj * Z(arg)
+    if act in ("add_op", "sub_op", "jitter_add_op"):
+        from linear_operator.operators import ConstantDiagLinearOperator, DenseLinearOperator, DiagLinearOperator, IdentityLinearOperator
+
+        code, sz = arg
+        other = (ConstantDiagLinearOperator(torch.full((1,), 2.0, dtype=dtype), sz) if code == 1 else IdentityLinearOperator(sz, dtype=dtype) if code == 2
+                 else DiagLinearOperator(torch.ones(sz, dtype=dtype)) if code == 3 else DenseLinearOperator(torch.ones(sz, sz, dtype=dtype)))
+        if not is_op:
+            o = other.to_dense()
+            return obj + o if act != "sub_op" else obj - o
+        if act == "jitter_add_op":
+            if obj.shape[-1] != obj.shape[-2]:
+                raise RuntimeError("add_jitter of a rectangular operator")
+            r = obj.add_jitter(0.5) + other
+        else:
+            r = obj + other if act == "add_op" else obj - other
+        return linear_operator.to_dense(r)
     if act == "solve":
         return obj.solve(Z(arg)) if is_op else torch.linalg.solve(obj, Z(arg))
     if act == "inv_quad":
